@@ -14,7 +14,7 @@
                               (prim, castv, idxp, db)
      has_type sg v t          value v belongs to type t (subtype semantics)
      sig_wf sg                ancestor tables transitively closed, object ancestors irreflexive *)
-From Coq Require Import List NArith ZArith Bool.
+From Coq Require Import List NArith ZArith Bool Permutation.
 From Verif.C12 Require Import Model Gen_StdSig Proofs.
 Import ListNotations.
 
@@ -40,6 +40,58 @@ Theorem C12_sound :
     Forall (fun v => has_type sg v t = true) vs.
 Proof. exact run_sound. Qed.
 Print Assumptions C12_sound.
+
+(* The inferred type and the clean flag do not depend on the value-level semantics: two runs
+   under ANY two semantics / databases report the same type, the same flag, or the same error.
+   Hence the function compared with the real compiler ([stmt_type_clean] = [run] under the
+   trivial semantics) reports the type that C12_sound speaks about. *)
+Theorem C12_type_independent_of_values :
+  forall (sg : sig) (s_int64 : N)
+         (prim1 prim2 : bcall -> list (list value) -> list value)
+         (castv1 castv2 : ty -> ty -> value -> list value)
+         (idxp1 idxp2 : ty -> value -> value -> list value)
+         (db1 db2 : N -> list value) (e : expr),
+  match run sg s_int64 prim1 castv1 idxp1 db1 e, run sg s_int64 prim2 castv2 idxp2 db2 e with
+  | Ok (t1, c1, _), Ok (t2, c2, _) => t1 = t2 /\ c1 = c2
+  | Err e1, Err e2 => e1 = e2
+  | _, _ => False
+  end.
+Proof. exact run_rel. Qed.
+Print Assumptions C12_type_independent_of_values.
+
+(* The headline statement: whenever the (extracted, real-compiler-compared) inference function
+   accepts a statement as clean with type t, then under every admissible semantics and every
+   conforming database the statement evaluates, and every value belongs to t. *)
+Theorem C12_stmt_type_sound :
+  forall (sg : sig), sig_wf sg = true ->
+  forall (s_int64 : N)
+         (prim : bcall -> list (list value) -> list value)
+         (castv : ty -> ty -> value -> list value)
+         (idxp : ty -> value -> value -> list value)
+         (db : N -> list value),
+  (forall bc vals,
+      Forall2 (fun vs b => typed sg (barg_target b) vs) vals (bc_args bc) ->
+      typed sg (bc_ret bc) (prim bc vals)) ->
+  (forall a b v, typed sg b (castv a b v)) ->
+  (forall t v i, typed sg t (idxp t v i)) ->
+  (forall o, typed sg (TObj o) (db o)) ->
+  forall e t,
+    stmt_type_clean sg s_int64 e = Ok (t, true) ->
+    exists vs, run sg s_int64 prim castv idxp db e = Ok (t, true, vs) /\
+               Forall (fun v => has_type sg v t = true) vs.
+Proof. exact stmt_type_sound. Qed.
+Print Assumptions C12_stmt_type_sound.
+
+(* Overload resolution (polyres.find_callable: minimal total implicit-cast distance, then minimal
+   total type distance) does not depend on the order in which the schema yields the candidate
+   overloads: permuting the candidates permutes the set of selected calls (so "exactly one
+   match", "no match" and "ambiguous" are order-independent outcomes). *)
+Theorem C12_resolve_order_independent :
+  forall (sg : sig) args kw c1 c2 m1,
+  Permutation c1 c2 -> find_callable sg c1 args kw = Ok m1 ->
+  exists m2, find_callable sg c2 args kw = Ok m2 /\ Permutation m1 m2.
+Proof. exact find_callable_perm. Qed.
+Print Assumptions C12_resolve_order_independent.
 
 (* Passing an argument without a cast is safe when (and, see Refuted.v, only when) the tuple
    shapes agree: subclass + same shape implies membership is preserved. *)
